@@ -150,8 +150,8 @@ type RCanvas struct {
 
 	depth   int
 	ctm     []matrix.Transform // stack, top = current
-	hasPath bool // a path is under construction (not part of the q/Q state in PDF)
-	hasPt   bool // current point defined
+	hasPath bool               // a path is under construction (not part of the q/Q state in PDF)
+	hasPt   bool               // current point defined
 	bbox    [4]fl
 	fonts   map[backend.Font]*backend.FontChars
 	used    bool // for groups: drawn via DrawWithOpacity / pattern / mask
@@ -160,7 +160,7 @@ type RCanvas struct {
 func (r *Recorder) newCanvas(page int, parent *RCanvas, kind string) *RCanvas {
 	r.nextCanvas++
 	c := &RCanvas{R: r, ID: r.nextCanvas, PageIx: page, Kind: kind, Parent: parent,
-		ctm: []matrix.Transform{matrix.Identity()},
+		ctm:   []matrix.Transform{matrix.Identity()},
 		fonts: map[backend.Font]*backend.FontChars{}}
 	r.Canvases = append(r.Canvases, c)
 	return c
